@@ -202,6 +202,8 @@ func relatedToken(r drv.Rand, at string) (string, string) {
 	return o, how
 }
 
+var rrDims = []string{"iss", "sub", "aud", "azp", "exp", "iat", "nonce", "acr", "auth_time", "at_hash"}
+
 // keywords: literal values that sloppy code drops or reinterprets; here they are
 // ordinary opaque strings and must be compared as such.
 var keywords = []string{"null", "NULL", "nil", "undefined", "true", "false", "0", "[]", "{}"}
@@ -416,6 +418,14 @@ func main() {
 			continue
 		}
 		alg := algs[i%len(algs)]
+		// single-fault stratum: every third case mutates exactly ONE claim dimension,
+		// the dimensions taken in turn (decorrelated from the algorithm sweep) and the
+		// verifier option that gives the dimension a meaning switched on
+		forced := ""
+		if i%3 == 1 {
+			q := i / 3
+			forced = rrDims[(q+q/len(rrDims))%len(rrDims)]
+		}
 		signer := drv.Pick(r, pool.ForAlg(alg))
 		// HMAC configuration end to end: HS* allowed, ID token MACed with a shared
 		// secret, caller-supplied key set that verifies with that secret
@@ -471,6 +481,27 @@ func main() {
 		default:
 			v.Algs = []string{drv.Pick(r, algs), alg}
 		}
+		switch forced {
+		case "iat":
+			if r.Bool() {
+				v.MaxIAT = time.Hour
+			}
+		case "auth_time":
+			if r.Chance(3, 4) {
+				v.MaxAge = time.Hour
+			}
+		case "nonce":
+			if v.Nonce == nil {
+				nv := "n-" + ext
+				v.Nonce = &nv
+				nonceWant = nv
+			}
+		case "acr":
+			if v.ACR == nil {
+				l := acrs
+				v.ACR = &l
+			}
+		}
 		offS := int64(v.Offset / time.Second)
 
 		// ---- all-correct claims, times with comfortable margins
@@ -488,7 +519,7 @@ func main() {
 			c.Azp = client
 		}
 		at, atLen, atForm := accessToken(r)
-		withAT := r.Chance(3, 5)
+		withAT := r.Chance(3, 5) || forced == "at_hash"
 		half, full := halfHash(alg, at)
 		if withAT && r.Chance(3, 4) {
 			c.AtHash = half
@@ -515,8 +546,14 @@ func main() {
 			dims = append(dims, "at_hash", "at_hash")
 		}
 		done := map[string]bool{}
+		if forced != "" {
+			k = 1
+		}
 		for j := 0; j < k; j++ {
 			d := drv.Pick(r, dims)
+			if forced != "" {
+				d = forced
+			}
 			if done[d] {
 				continue
 			}
@@ -630,7 +667,7 @@ func main() {
 						c.AuthT = nowSec - 3600 + o2 + dl
 					}
 				} else {
-					val = drv.Pick(r, []string{"absent", "veryold", "future"})
+					val = drv.Pick(r, []string{"absent", "absent", "veryold", "future"})
 					c.AuthT = map[string]int64{"absent": 0, "veryold": nowSec - 86400, "future": nowSec + 600}[val]
 				}
 			case "at_hash":
@@ -682,7 +719,7 @@ func main() {
 			}
 			tags = append(tags, "m_at_hash=hmac_"+val)
 		}
-		tags = append(tags, fmt.Sprintf("nmut=%d", len(done)))
+		tags = append(tags, fmt.Sprintf("nmut=%d", len(done)), fmt.Sprintf("single_fault=%v", forced != ""))
 
 		// ---- key set and signature dimension
 		served := []tok.JWK{{Kid: kid, Use: drv.Pick(r, []string{"sig", "sig", ""}), Key: signer}}
